@@ -110,6 +110,11 @@ class Extracted:
 
 def build(template_path, repo_root, subst=None):
     ttext = open(template_path).read()
+    # `//@include <path relative to /verif>`: textual inclusion of shared spec/lemma files
+    verif_root = os.path.dirname(os.path.dirname(os.path.abspath(__file__)))
+    def _inc(mm):
+        return open(os.path.join(verif_root, mm.group(1).strip())).read()
+    ttext = re.sub(r"^//@include[ \t]+(\S+)[ \t]*$", _inc, ttext, flags=re.M)
     # unit-level template parameters: literal token replacement (e.g. one template verified under
     # several spec configurations)
     for k, v in (subst or {}).items():
